@@ -11,6 +11,7 @@ import Driver.C13
 import Driver.C10
 import Driver.C07
 import Driver.C18
+import Driver.C14
 
 def main (args : List String) : IO UInt32 := do
   match args with
@@ -27,4 +28,5 @@ def main (args : List String) : IO UInt32 := do
   | ["c10"] => Redproxy.Driver.C10.main; return 0
   | ["c07"] => Redproxy.Driver.C07.main; return 0
   | ["c18"] => Redproxy.Driver.C18.main; return 0
+  | ["c14"] => Redproxy.Driver.C14.main; return 0
   | _ => IO.eprintln "usage: rpmodel <mode>  (cases on stdin, one output line per case on stdout)"; return 2
